@@ -45,9 +45,12 @@ def tokens(src):
     return re.findall(r'b"[^"]*"|"[^"]*"|[A-Za-z_][A-Za-z0-9_]*|\d[\d_]*(?:u16|u8|usize)?|=>|::|[{}()\[\],;=|&<>!#.:*+\-/]', src)
 
 
+class Unsupported(Exception):
+    pass
+
+
 def fail(msg):
-    print("gen_tables: " + msg, file=sys.stderr)
-    sys.exit(3)
+    raise Unsupported(msg)
 
 
 def block_after(toks, start):
@@ -181,10 +184,15 @@ def parse_packet(path):
         fail("packet.rs: expected exactly one `const U24_MAX: usize = <literal>;`")
     u24 = int(m[0].replace("_", ""))
     t = re.findall(r"tag\(&\[\s*(0x[0-9a-fA-F]+|\d+)\s*,\s*(0x[0-9a-fA-F]+|\d+)\s*,\s*(0x[0-9a-fA-F]+|\d+)\s*\]\)", src)
-    if len(t) != 1:
-        fail("packet.rs: expected exactly one literal 3-byte tag(&[..]) in fullpacket")
-    tag = [int(x, 0) for x in t[0]]
-    return u24, tag
+    if len(t) > 1:
+        fail("packet.rs: more than one literal 3-byte tag(&[..])")
+    if len(t) == 1:
+        tag, src_of_tag = [int(x, 0) for x in t[0]], "literal"
+    else:
+        # the code recognises a maximal fragment without a literal tag (e.g. by comparing the decoded
+        # length with U24_MAX): there is no second constant that could disagree with U24_MAX
+        tag, src_of_tag = [u24 & 255, (u24 >> 8) & 255, (u24 >> 16) & 255], "derived from U24_MAX (no literal tag in packet.rs)"
+    return u24, tag, src_of_tag
 
 
 def coq_string(s):
@@ -208,6 +216,26 @@ def write_if_changed(path, content):
 
 
 def main():
+    """the two tables are translated independently: a source file whose shape is no longer understood
+    breaks the tie only for the properties that rest on its table (exit 3, message names the part)"""
+    problems = []
+    for part, fn in (("errorcodes", gen_errorcodes), ("packet", gen_consts)):
+        try:
+            fn()
+        except Unsupported as e:
+            problems.append("%s: %s" % (part, e))
+        except Exception as e:
+            problems.append("%s: translator crashed: %r" % (part, e))
+    if problems:
+        for pr in problems:
+            print("gen_tables: UNSUPPORTED " + pr, file=sys.stderr)
+        sys.exit(3)
+
+
+SUMMARY = {}
+
+
+def gen_errorcodes():
     variants, from_arms, state_arms = parse_errorcodes(os.path.join(REPO, "src/errorcodes.rs"))
     idx = {}
     for i, (name, code) in enumerate(variants):
@@ -240,19 +268,21 @@ def main():
     L.append(";\n".join("  ([%s], %s)" % ("; ".join(str(idx[n]) for n in names), coq_bytes(st)) for names, st in state_arms))
     L.append("].")
     ch1 = write_if_changed(os.path.join(OUT, "ErrorCodes.v"), "\n".join(L) + "\n")
+    SUMMARY.update({"variants": len(variants), "from_arms": len(from_arms), "state_arms": len(state_arms),
+                    "states": len(set(s for _, s in state_arms)), "errorcodes_changed": ch1})
 
-    u24, tag = parse_packet(os.path.join(REPO, "src/packet.rs"))
+
+def gen_consts():
+    u24, tag, tag_src = parse_packet(os.path.join(REPO, "src/packet.rs"))
     C = ["(* GENERATED by tools/gen_tables.py from /repo/src/packet.rs -- do not edit *)",
          "From Coq Require Import List NArith.", "Import ListNotations.", "Open Scope N_scope.",
          "Definition U24_MAX : N := %d." % u24,
          "Definition fragment_tag : list N := [%s]." % "; ".join(str(x) for x in tag), ""]
     ch2 = write_if_changed(os.path.join(OUT, "Consts.v"), "\n".join(C))
-    summary = {"variants": len(variants), "from_arms": len(from_arms), "state_arms": len(state_arms),
-               "states": len(set(s for _, s in state_arms)), "U24_MAX": u24, "tag": tag,
-               "changed": [ch1, ch2]}
+    SUMMARY.update({"U24_MAX": u24, "tag": tag, "tag_source": tag_src, "consts_changed": ch2})
     with open(os.path.join(OUT, "summary.json"), "w") as f:
-        json.dump(summary, f)
-    print(json.dumps(summary))
+        json.dump(SUMMARY, f)
+    print(json.dumps(SUMMARY))
 
 
 if __name__ == "__main__":
